@@ -4,6 +4,12 @@
 **   sfh grid c17 <format-hex> <null|r|w|rw> <plain|rich|used>      (stdin: one line per command id: "<id-hex> <maxsize> [extra sizes ...]")
 **   sfh grid c17 point <format-hex> <state> <flavour> <id-hex> <size> <kind>     (one point, in-process: used by replays)
 **
+** <flavour> may carry a ROUTE suffix: plain@path, used@fd, plain@pipe (default @vio = sf_open_virtual on a memory store).
+** path = sf_open on a private temporary file, fd = sf_open_fd (close_desc 1) on it, pipe = sf_open_fd on one end of a pipe
+** (read handle: the master file is in the pipe; write handle: the other end stays open and is drained after sf_close).
+** The route is handle state that command guards read (psf->virtual_io, psf->sf.seekable / psf->is_pipe): `facts` prints
+** virtual=<0|1> and the seekable flag the library reports.
+**
 ** One canonical line per point:
 **   p cmd=<hex> size=<n> data=<kind> | ret=<n> err=<n> chg=<ranges|-> z=<first zero byte in block after the call|-1> same=<1|0:groups> probe=<frames read:next two frames|-> [observer=impure:<groups>]
 **   p cmd=<hex> size=<n> data=<kind> | ABORT status=77        (sanitizer report: access outside the block)
@@ -19,6 +25,8 @@
 */
 #include "sfh.h"
 #include <sys/mman.h>
+#include <sys/stat.h>
+#include <fcntl.h>
 #include <sanitizer/asan_interface.h>
 
 #define TAIL	(64 * 1024)
@@ -29,7 +37,93 @@ typedef struct
 {	int format ;
 	int state ;		/* 0 null, SFM_READ, SFM_WRITE, SFM_RDWR */
 	int flavour ;	/* 0 plain, 1 rich, 2 used */
+	int route ;		/* 0 vio, 1 path, 2 fd, 3 pipe */
 } COMBO ;
+
+enum { R_VIO, R_PATH, R_FD, R_PIPE } ;
+static const char *ROUTES [] = { "vio", "path", "fd", "pipe" } ;
+static char g_dir [200], g_path [240] ;
+static int g_pipe_other = -1 ;	/* the end of the pipe the library does not own */
+
+static void
+route_init (const COMBO *c)
+{	const char *base = getenv ("SFH_SCRATCH") ;
+	if (c->route == R_VIO || g_dir [0]) return ;
+	snprintf (g_dir, sizeof (g_dir), "%s/sfh-c17-XXXXXX", base ? base : "/var/tmp") ;
+	if (mkdtemp (g_dir) == NULL) { printf ("facts open-failed\n") ; exit (0) ; }
+	snprintf (g_path, sizeof (g_path), "%s/f.dat", g_dir) ;
+}
+
+static void
+route_cleanup (void)
+{	if (!g_dir [0]) return ;
+	unlink (g_path) ;
+	rmdir (g_dir) ;
+	g_dir [0] = 0 ;
+}
+
+static void
+route_after_close (void)
+{	if (g_pipe_other >= 0) { close (g_pipe_other) ; g_pipe_other = -1 ; }
+}
+
+/* open the handle of a non-virtual route; `bytes` (read state) is the file the handle is opened on */
+static SNDFILE *
+route_open (const COMBO *c, SF_INFO *info, const unsigned char *bytes, sf_count_t len)
+{	SNDFILE *sf ; int fd, pfd [2] ;
+	route_after_close () ;
+	if (c->route == R_PIPE)
+	{	if (c->state == SFM_RDWR || len > 60000 || pipe (pfd) != 0) return NULL ;
+		if (c->state == SFM_READ)
+		{	if (len > 0 && write (pfd [1], bytes, len) != len) { close (pfd [0]) ; close (pfd [1]) ; return NULL ; }
+			close (pfd [1]) ;
+			sf = sf_open_fd (pfd [0], SFM_READ, info, 1) ;
+			if (sf == NULL) close (pfd [0]) ;
+			return sf ;
+			}
+		fcntl (pfd [0], F_SETFL, O_NONBLOCK) ;
+		g_pipe_other = pfd [0] ;
+		sf = sf_open_fd (pfd [1], SFM_WRITE, info, 1) ;
+		if (sf == NULL) { close (pfd [1]) ; route_after_close () ; }
+		return sf ;
+		}
+	unlink (g_path) ;
+	if (c->state == SFM_READ)
+	{	fd = open (g_path, O_WRONLY | O_CREAT | O_TRUNC, 0600) ;
+		if (fd < 0) return NULL ;
+		if (len > 0 && write (fd, bytes, len) != len) { close (fd) ; return NULL ; }
+		close (fd) ;
+		}
+	if (c->route == R_PATH)
+		return sf_open (g_path, c->state, info) ;
+	fd = open (g_path, c->state == SFM_READ ? O_RDONLY : c->state == SFM_WRITE ? (O_WRONLY | O_CREAT | O_TRUNC) : (O_RDWR | O_CREAT | O_TRUNC), 0600) ;
+	if (fd < 0) return NULL ;
+	sf = sf_open_fd (fd, c->state, info, 1) ;
+	if (sf == NULL) close (fd) ;
+	return sf ;
+}
+
+/* length and the first MiB of the file behind a path / fd handle (SFC_FILE_TRUNCATE may make it sparse and huge) */
+static uint64_t
+route_store_digest (uint64_t h0)
+{	static unsigned char buf [1 << 16] ; struct stat st ; uint64_t h = h0 ; int fd ; long long done = 0 ; ssize_t r ;
+	unsigned long long x ;
+	if (stat (g_path, &st) != 0) return h ;
+	h = h0 ;
+	{	long long sz = (long long) st.st_size ; const unsigned char *p = (const unsigned char *) &sz ; size_t k ;
+		for (k = 0 ; k < sizeof (sz) ; k++) { h ^= p [k] ; h *= 1099511628211ULL ; }
+		}
+	fd = open (g_path, O_RDONLY) ;
+	if (fd < 0) return h ;
+	while (done < (1 << 20) && (r = read (fd, buf, sizeof (buf))) > 0)
+	{	ssize_t k ;
+		for (k = 0 ; k < r ; k++) { h ^= buf [k] ; h *= 1099511628211ULL ; }
+		done += r ;
+		}
+	close (fd) ;
+	x = h ;
+	return x ;
+}
 
 typedef struct
 {	uint64_t pos, info, settings, meta, store ;
@@ -150,13 +244,19 @@ build_handle (const COMBO *c)
 	{	short buf [5 * CH] ;
 		store_set (g_work, g_master->buf, g_master->len) ;
 		if ((c->format & SF_FORMAT_TYPEMASK) != SF_FORMAT_RAW) info.format = 0 ;
-		sf = sf_open_virtual (&c17_vio, SFM_READ, &info, g_work) ;
+		if (c->route == R_VIO)
+			sf = sf_open_virtual (&c17_vio, SFM_READ, &info, g_work) ;
+		else
+			sf = route_open (c, &info, g_master->buf, g_master->len) ;
 		if (sf != NULL && c->flavour == 2)
 			sf_readf_short (sf, buf, 5) ;
 		return sf ;
 		}
 	g_work->len = 0 ; g_work->pos = 0 ;
-	sf = sf_open_virtual (&c17_vio, c->state, &info, g_work) ;
+	if (c->route == R_VIO)
+		sf = sf_open_virtual (&c17_vio, c->state, &info, g_work) ;
+	else
+		sf = route_open (c, &info, NULL, 0) ;
 	if (sf == NULL) return NULL ;
 	if (c->flavour >= 1) set_metadata (sf, c->format) ;
 	if (c->flavour == 2)
@@ -231,8 +331,14 @@ digest (SNDFILE *sf, const COMBO *c, DIGEST *d)
 
 	/* the bytes of the file; the offset of the underlying descriptor is not handle state (the library
 	** re-seeks when it changes direction) — what it means for the audio is observed by probe () below */
-	h = fnv (FNV0, &g_work->len, sizeof (g_work->len)) ;
-	h = fnv (h, g_work->buf, g_work->len) ;
+	if (c->route == R_PATH || c->route == R_FD)
+		h = route_store_digest (FNV0) ;
+	else if (c->route == R_PIPE)
+		h = FNV0 ;		/* what went into the pipe cannot be taken back: not observed */
+	else
+	{	h = fnv (FNV0, &g_work->len, sizeof (g_work->len)) ;
+		h = fnv (h, g_work->buf, g_work->len) ;
+		}
 	d->store = h ;
 }
 
@@ -339,6 +445,7 @@ run_point (const COMBO *c, int cmd, int size, int kind)
 				d0.meta != d1.meta ? "meta," : "", d0.store != d1.store ? "store," : "") ;
 	fflush (stdout) ;
 	if (sf) sf_close (sf) ;		/* a death in sf_close still belongs to this point: the line is not finished yet */
+	route_after_close () ;
 	alarm (0) ;
 	printf ("\n") ;
 }
@@ -384,6 +491,7 @@ print_facts (const COMBO *c)
 	else
 		printf (" rpos=0 wpos=%lld", (long long) sf_seek (sf, 0, SEEK_CUR)) ;
 	printf (" written=%d", c->flavour == 2 && c->state != SFM_READ) ;
+	printf (" virtual=%d route=%s", c->route == R_VIO, ROUTES [c->route]) ;
 	memset (big, 0, sizeof (big)) ;
 	r = sf_command (sf, SFC_GET_BROADCAST_INFO, big, 17000) ;
 	memcpy (&u, big + offsetof (SF_BROADCAST_INFO, coding_history_size), 4) ;
@@ -405,6 +513,7 @@ print_facts (const COMBO *c)
 	probe (sf, c) ;
 	printf ("\n") ;
 	sf_close (sf) ;
+	route_after_close () ;
 }
 
 static int
@@ -429,8 +538,17 @@ static int
 combo_parse (COMBO *c, char **argv)
 {	c->format = (int) strtol (argv [0], NULL, 16) ;
 	c->state = !strcmp (argv [1], "null") ? 0 : !strcmp (argv [1], "r") ? SFM_READ : !strcmp (argv [1], "w") ? SFM_WRITE : !strcmp (argv [1], "rw") ? SFM_RDWR : -1 ;
-	c->flavour = !strcmp (argv [2], "plain") ? 0 : !strcmp (argv [2], "rich") ? 1 : !strcmp (argv [2], "used") ? 2 : -1 ;
-	return c->state >= 0 && c->flavour >= 0 ;
+	{	char fl [32] ; char *at ; int k ;
+		snprintf (fl, sizeof (fl), "%s", argv [2]) ;
+		c->route = R_VIO ;
+		if ((at = strchr (fl, '@')) != NULL)
+		{	*at = 0 ;
+			c->route = -1 ;
+			for (k = 0 ; k < 4 ; k++) if (!strcmp (at + 1, ROUTES [k])) c->route = k ;
+			}
+		c->flavour = !strcmp (fl, "plain") ? 0 : !strcmp (fl, "rich") ? 1 : !strcmp (fl, "used") ? 2 : -1 ;
+		}
+	return c->state >= 0 && c->flavour >= 0 && c->route >= 0 ;
 }
 
 /* kinds used with a command: every command gets NULL and the 0xA5 block; the content-bearing fills
@@ -440,6 +558,7 @@ grid_run (const COMBO *c, FILE *in)
 {	char *line = NULL ; size_t cap = 0 ;
 	long *progress = mmap (NULL, 4096, PROT_READ | PROT_WRITE, MAP_SHARED | MAP_ANONYMOUS, -1, 0) ;
 	setvbuf (stdout, NULL, _IOFBF, 1 << 16) ;
+	route_init (c) ;
 	if (c->state == SFM_READ && !make_master (c))
 	{	printf ("facts open-failed\n") ; return 0 ; }
 	print_facts (c) ;
@@ -503,6 +622,7 @@ grid_run (const COMBO *c, FILE *in)
 		free (pts) ;
 		}
 	free (line) ;
+	route_cleanup () ;
 	printf ("end\n") ;
 	fflush (stdout) ;
 	return 0 ;
@@ -520,10 +640,12 @@ grid_c17 (int argc, char **argv)
 		return print_consts () ;
 	if (argc >= 7 && !strcmp (argv [0], "point"))
 	{	if (!combo_parse (&c, argv + 1)) return 2 ;
-		if (c.state == SFM_READ && !make_master (&c)) { printf ("open-failed\n") ; return 0 ; }
+		route_init (&c) ;
+		if (c.state == SFM_READ && !make_master (&c)) { printf ("open-failed\n") ; route_cleanup () ; return 0 ; }
 		signal (SIGALRM, on_alarm_c17) ;
 		run_point (&c, (int) strtoll (argv [4], NULL, 16), atoi (argv [5]), kind_of (argv [6]) < 0 ? K_NULL : kind_of (argv [6])) ;
 		fflush (stdout) ;
+		route_cleanup () ;
 		return 0 ;
 		}
 	if (argc < 3 || !combo_parse (&c, argv))
